@@ -409,6 +409,50 @@ EXTRA2 = {
   text=" Empty get-entries pages are a counted fault (emptyPage; named clauses EmptyPageHandedOn / EmptyRequestRefused: the reference destination refuses a request without leaves as Trillian v1.7.1 does), PosCovered (a pass reported successful leaves no hole below the position handed on) is part of Safety, and trace validation names abandoned ranges through the defect step AbandonRanges (convicted by Complete at Return nil and NoGap at the next GetRoot).",
   note=" Over-long pages are not modelled; trace validation also accepts dropping an empty batch and asking again (SkipEmpty)."),
 }
+EXTRA3 = {
+ "C01": dict(
+  text=" CTFE.tla now has several front end instances with own clocks set to any value (ClockSet: backward steps, skew between instances), signer faults, refused backend calls and lost replies with retries (DupIgnoresClock, StoredNeverRestamped, SCTOnlyOn200); EntryShapes.tla opens the value-dependent fields of the submitted TBSCertificate (notBefore / notAfter on both sides of 1950 / 2000 / 2050 and in 9999, serial numbers around the sign octet and at 20 octets, a multi-octet OID arc; law FieldsVerbatim) and the validity / serial forms are read back from the served leaf."),
+ "C06": dict(
+  text=" The log signer is a fault-injecting device obtained through trillian's key-handler registry; the signature cache is modelled per front end (STHVerifies, SignedHeadCoherent, FailedRequestLeavesNothing; non-vacuity shown by CTFESignDefect.cfg, which TLC must refute); concurrent Inv / Call / Ret histories of two instances with staged overlaps are validated by CTFETrace.tla.",
+  technique="; code->spec trace validation of concurrent runs of two instances under -race"),
+ "C08": dict(
+  text=" Schedules: a backend call is parked inside the backend while further (mostly identical) requests arrive, then failed; CTFETrace.tla demands that every reply be explained by the request's own backend call (OwnBackendCall, SharedFetch clause for get-sth). The echoed leaf is opened field by field (version, leaf_type, entry_type incl. 32768, zero-length ASN.1Cert / TBSCertificate vectors, nothing after an unknown leaf_type: 80 well-framed non-leaves x 2 submission endpoints x position x masking).",
+  note=" Named unasserted clause EchoVersionUnasserted (only the version octet of the echoed leaf deviates: the front end answers 200; executed and recorded, not judged).",
+  technique="; trace validation of gated concurrent fault schedules"),
+ "C03": dict(
+  technique="; DER primitives (INTEGER by value, lengths, OID subidentifiers) specified with round-trip / minimality laws; serial numbers by value at the two's-complement boundaries (both signs, 1-21 octets), unknown-extension arcs and value lengths at their encoding boundaries; SCT kinds = log key type / hash x signature form (trailing octets after a DER ECDSA value accepted, non-DER / cut / RSA with an extra octet rejected) x signed entry, verdict compared with ctutil.VerifySCT (default key policy) and VerifySCTWithVerifier (opt-in) on both routes"),
+ "C04": dict(
+  text=" EntryOfChain.tla (on Precert.tla) states the entry of a chain of REAL certificates: route (x509 / precert / embedded) x api (parsed / raw) x issuance incl. three kinds of precertificate signing certificate x how much of the chain is passed x notBefore / notAfter on both sides of 1950 and 2050 x subject / CA key types x poison position x timestamp x SCT extensions (laws ValidityVerbatim, IssuerCoherent, OnlyMarkGone, RoutesAgree, TailIrrelevant, ApiIrrelevant, ExistsIffIssuerPassed); every case is issued with std crypto/x509, derived by ct.MerkleTreeLeafFromChain / FromRawChain / ForEmbeddedSCT and compared component by component with the specification and byte for byte (leaf, leaf hash, SCT signature input) with harness/ref."),
+ "C05": dict(
+  technique="; shape of the precertificate chain as a case dimension (issuance direct / via a precertificate signing certificate of three kinds x poison or embedded SCT list last / before the AKI / first; ShapeIrrelevant) with the signed TBSCertificate derived by harness/ref; unencodable field values as refused calls; a second explicit non-function Residue (what a refused serialization emitted is taken up by the next call) next to Memo(x), refused presentations and interludes as session steps, the 'glued' value form"),
+ "C09": dict(
+  technique="; function law over concurrent callers: TLSCodecConc.tla (rounds = solo call | wave | solo call on fresh types; FunctionLaw under the sound per-type-memo disciplines, refuted with class probes for publish-then-fill / fill-while-walking / shared-scratch; liveness Completes), rounds replayed on reflect.StructOf types renamed per execution, without and with -race; executed round classes must cover the exposing classes of every refuted discipline",
+  note=" No hooks inside tls: interleavings within a wave are the scheduler's; data races judged by the Go race detector."),
+ "C10": dict(
+  note=" Tag-class dimension: explicit / implicit x {context, application, private, both} x tag numbers x optional / default on struct members and in the top-level parameter string (both option orders); wire class of every tagged member as an input defect; ReadClass / WriteClass tables re-confirmed against encoding/asn1; ClassQuirk members exempt from RoundTrip.",
+  technique="; UnmarshalWithParams / MarshalWithParams with the root node's parameters in fork and encoding/asn1; class-bit byte mutations"),
+ "C11": dict(
+  technique="; X509ParseKeys.tla: key containers as nested parsers (KeyCoherent, NoTypedNil with the pass-through wrapper refuted by TLC, RejectionSurfaces, FindingPolicy), 981 cases of entry point x key kind x 121 defects replayed into the six key / request parsers with typed nils counted as mixed outcomes in every law; X509ParseFirstUse.tla: sync.Once gate for lazily built package state (ReadsOnlyReady, FirstUseFunctional, BuiltOnce, Termination; the barrier-less fast path refuted), 16 plans of coinciding first uses executed in fresh child processes under the race detector and without",
+  note=" Named clauses N5 (secp192r1 is a finding), S1 (EC scalar padding ignored), StdEllipticInit (go1.23 crypto/elliptic's own race on the custom-curve path is counted, not judged)."),
+ "C13": dict(
+  text=" RetryWire.cfg checks all clauses over every wire kind (redirect chains converting / preserving the POST, loops), body spellings and http.Client redirect policies (Seen(hc, w, sp)); every replayed behaviour / recorded trace carries the client's http.Client configuration and the spelling of each 200 body (the trace spec, not the harness, decides the class seen).",
+  note=" http.Client configurations nil / plain / own CheckRedirect (pass, bound, ErrUseLastResponse, refuse) / Jar / Timeout; a refused redirect may be retried or returned as its 3xx (RefusedIsNotOK), a handed-back 3xx is a status (UseLastIsStatus); 10 legal JSON spellings of the correct body are class ok, 11 others (incl. unpadded / URL-alphabet base64, trailing bytes) are unparsable; success must carry the content of that very response."),
+ "C17": dict(
+  text=" ProxyLifecycle.tla specifies which list a submission runs against (refresher read / compare / parse, LogListManager ticker goroutine and its capacity-1 channels, proxy loop with builder / swap under distMu / Init, one root refresher per distributor generation, submissions reading p.dist, cancellation anywhere); TLC checks TwoLatest, ActiveMonotone, KeepOnFailure, NoneUntilInit, UsesActive, InitOnce, OldRefresherCancelled, PairNotStuck exhaustively on component-wise configurations and Converges / Unblocks / LoopExits / RefreshersStop under fairness; NoTickerLeak, StrictStop, TickerStops are named observations that TLC refutes. TLC-simulated schedules are replayed against the real NewProxy + NewLogListManager + NewCustomLogListRefresher under virtual time with gates at list read / builder / get-roots / add-chain; every recorded run is validated by ProxyLifecycleTrace.tla with quiescence at each observation; an ungated concurrent run under -race is judged by order-based UsesActive / NoneUntilInit monitors.",
+  note=" Proxy life-cycle: 3-log catalogue and <= 2-4 emissions in exhaustive runs, 6-log / 5-version catalogue in replay; root knowledge per generation all-or-nothing; loadPendingLogs=false."),
+ "C18": dict(
+  technique="; every case is materialized in every FRAME exported by the specification: ticks pinned to 0000-01-01, 0001-01-01 (protobuf minimum = zero time.Time), 1950, 1970, 2038, 2050, 2262 and 9999-12-31T23:59:59Z as well as an ordinary instant; the configured-instance route is driven by the spec's ConfigAccepts / ConfiguredAdmits; routing is compared with the configured instance; NotAfterForLog is checked against the window",
+  note=" Absent bounds: AbsentBoundExcludesNothing plus the refuted observation CompletionIsWindow (differs exactly at t = Last); named clauses EmptyWindowConfigurable and ChooserInside."),
+ "C19": dict(
+  technique="; replayed-signature candidates (over field), offered history variable and history cover (offered-before x offered-now), replayed signatures in concurrent traces (ReplayedSigRefused, ReplayedLikeBadSig, HeldWasOffered)"),
+ "C02": dict(
+  technique="; options as configured (MCChainAdmissionCfg: every EKU list up to 3/4 names incl. 'Any' at every position and duplicates, forbidden-extension lists; laws ListShape / order-free / AnyOpens) replayed through ValidateLogConfig, instance set-up and NewCertValidationOpts; key identifiers and decoy look-alike roots (renamed key / re-keyed name) in 4 decoy pools with the code-shaped candidate lookup proved equal to the property; pools materialized in both orders",
+  note=" Named clause KeyIdsAgree (hierarchies whose key identifiers agree as RFC 5280 4.2.1.2 prescribes)."),
+}
+for _pid, _e in EXTRA3.items():
+    EXTRA2.setdefault(_pid, {})
+    for _k, _v in _e.items():
+        EXTRA2[_pid][_k] = EXTRA2[_pid].get(_k, "") + _v
 for _pid, _e in EXTRA2.items():
     EXTRA.setdefault(_pid, {})
     for _k, _v in _e.items():
